@@ -175,13 +175,39 @@ def run(res, prop, props_v, monitor, quick_n=(110, 36), thorough_n=(1500, 60), r
     # ---- monitors (the executable statement of the property) on every session
     mon_viol = []
     mon_stats = {}
+    INFRA_NOTES = ("dial:", "header:", "no connection.start", "no connection.tune", "no connection.open-ok")
+    aborted = [se for se in exact + racy_sessions if any(any(x in (st.get("note") or "") for x in INFRA_NOTES) for st in se["steps"])]
+    if aborted:
+        # the harness could not even open a socket / complete its own handshake in time (machine load): no observation
+        exact = [se for se in exact if se not in aborted]
+        racy_sessions = [se for se in racy_sessions if se not in aborted]
+    unreproduced = 0
     for se in exact + racy_sessions:
         try:
             vs = monitor(se, mon_stats)
         except Exception as ex:  # a monitor bug must not look like a verdict
             raise vlib.Infra("monitor failed on session %s: %r" % (se["id"], ex))
+        if vs and (se.get("kind") == "exact" or any(x in (st.get("note") or "") for st in se["steps"] for x in ("WEDGED", "TIMEOUT"))):
+            # an exact session replays deterministically, and a broker that really stopped answering does so again:
+            # the observation must reproduce (twice the settle time) before it is reported
+            ops = [st["op"] for st in se["steps"]]
+            again = []
+            for attempt in range(2):
+                o, e = brokerlib.replay_script(exe, se["cfg"], ops, settle=3)
+                if o is None:
+                    again = vs      # the broker died on replay: the crash is reported by the caller's own path
+                    break
+                o["id"], o["kind"], o["cfg"] = se["id"], se.get("kind"), se["cfg"]
+                again = monitor(o, {})
+                if again:
+                    break
+            if not again:
+                unreproduced += 1
+                continue
         for v in vs:
             mon_viol.append((se, v))
+    res.cov["sessions_discarded_harness_could_not_connect"] = len(aborted)
+    res.cov["monitor_observations_not_reproduced_on_replay"] = unreproduced
     # ---- evidence
     allse = exact + racy_sessions
     dist = {}
